@@ -354,12 +354,14 @@ class Check:
         ev = {'property_id': self.prop, 'tier': self.tier, 'seed': self.seed, 'level': level,
               'coverage': cov, 'assumptions': self.assumptions, 'wall_s': round(wall, 2),
               'violations': len(self.violations)}
-        os.makedirs(os.path.join(VERIF, 'evidence'), exist_ok=True)
-        tmp = os.path.join(VERIF, 'evidence', '%s.json.tmp%d' % (self.prop, os.getpid()))
+        # evidence under /verif describes /repo; a run against another tree (VERIF_REPO: mutation experiments) keeps its own
+        evdir = os.path.join(VERIF, 'evidence') if os.path.realpath(REPO) == '/repo' else os.path.join(BUILD, 'evidence')
+        os.makedirs(evdir, exist_ok=True)
+        tmp = os.path.join(evdir, '%s.json.tmp%d' % (self.prop, os.getpid()))
         with open(tmp, 'w') as f:
             json.dump(ev, f, indent=1)
             f.write('\n')
-        os.replace(tmp, os.path.join(VERIF, 'evidence', self.prop + '.json'))
+        os.replace(tmp, os.path.join(evdir, self.prop + '.json'))
         self.cleanup()
         if self.violations:
             for sig, replay, msg in self.violations[:20]:
